@@ -486,6 +486,27 @@ fn run_entry(i: usize, sc: &Scenario, maps: &Maps, out: &mut Vec<Value>, checks:
                 }
                 hits(p.mods(mk_mods(bits))).calculate()
             });
+            // ... and so must every other setting of the scenario (difficulty settings and score settings alike travel through
+            // the TryFrom conversions between the mode builders)
+            *checks += 1;
+            let all_before = guarded(|| {
+                let p = if sc.entry == "map_ref" { Performance::new(osu_map) } else { Performance::new(osu_map.clone()) };
+                let mut p = hits(p.mods(mk_mods(0)));
+                for c in &sc.calls {
+                    p = apply_perf(p, c);
+                }
+                // the mods decide the conversion: the final ones must be in place when the mode changes
+                p.mods(mk_mods(bits)).try_mode(gmode).ok().expect("osu map converts").calculate()
+            });
+            // (a setter the osu! builder documents as a no-op but the target builder accepts - hardrock_offsets for catch - is the
+            //  exception: given before the mode change it is dropped by design)
+            let dropped_by_design = sc.calls.iter().any(|c| !forwards("osu", &c.f) && forwards(mode, &c.f));
+            match (&all_before, &after) {
+                _ if dropped_by_design => {}
+                (Ok(a), Ok(b)) if dbg_perf(a) == dbg_perf(b) => {}
+                (a, b) => out.push(json!({"scenario_index": i, "aspect": "entry", "what": "settings_before_vs_after_mode_change", "mode": mode, "entry": sc.entry, "calls": sc.calls,
+                    "expected": format!("{b:?}").chars().take(500).collect::<String>(), "observed": format!("{a:?}").chars().take(500).collect::<String>()})),
+            }
             match (before, after) {
                 (Ok(a), Ok(b)) if dbg_perf(&a) == dbg_perf(&b) => {}
                 (a, b) => out.push(json!({"scenario_index": i, "aspect": "entry", "what": "hit_results_before_vs_after_mode_change", "mode": mode, "entry": sc.entry, "calls": sc.calls,
